@@ -13,15 +13,15 @@ cd $W
 echo "== apply"; git apply $S/patch.diff && echo applied || { echo APPLY-FAILED; }
 echo "== build"; go build ./... && echo build-ok
 echo "== existing tests: $@"
-go test -count=1 -timeout 25m "$@" 2>&1 | tail -15
+unshare -n sh -c 'ip link set lo up; exec "$0" "$@"' go test -count=1 -timeout 25m "$@" 2>&1 | tail -15
 echo "existing-rc=${PIPESTATUS[0]}"
 cp $S/demo_test.go $demopkg/zz_seed_demo_test.go
 echo "== demo WITH change (expect FAIL)"
-go test -count=1 -run "$rx" ./$demopkg 2>&1 | tail -15
+unshare -n sh -c 'ip link set lo up; exec "$0" "$@"' go test -count=1 -run "$rx" ./$demopkg 2>&1 | tail -15
 echo "demo-with-rc=${PIPESTATUS[0]}"
 git apply -R $S/patch.diff
 echo "== demo WITHOUT change (expect PASS)"
-go test -count=1 -run "$rx" ./$demopkg 2>&1 | tail -8
+unshare -n sh -c 'ip link set lo up; exec "$0" "$@"' go test -count=1 -run "$rx" ./$demopkg 2>&1 | tail -8
 echo "demo-without-rc=${PIPESTATUS[0]}"
 } > $LOG 2>&1
 cd /; git -C /repo worktree remove --force $W
